@@ -67,6 +67,24 @@ def compile_reused(doc, uri='u'):
         return ('exc', '%s: %s' % (type(e).__name__, e))
 
 
+def compile_json(doc, uri='u'):
+    """Compile a document that went through JSON (as a consumer of the ndjson stream would hold it): same values, but none of
+    its strings is the same object as a literal in the library.  ('ok', pickles) or ('exc', text)."""
+    import json
+    d_in = json.loads(json.dumps(doc))
+    d_in['uri'] = uri
+    try:
+        return ('ok', Compiler(generator_at(max_id(doc) + 1)).compile(d_in))
+    except Exception as e:  # noqa: BLE001
+        return ('exc', '%s: %s' % (type(e).__name__, e))
+
+
+def routes(doc, got):
+    """[(route name, result)] for a document: fresh compiler (already computed), long-lived compiler, JSON round trip."""
+    return (('fresh compiler', got), ('compiler that compiled other documents before', compile_reused(doc)),
+            ('document that went through JSON', compile_json(doc)))
+
+
 def compile_both(doc, uri='u'):
     """doc: AST dict (without uri).  Returns (impl result, reference pickles, input copy, input after compile).
     impl result is ('ok', pickles) or ('exc', text)."""
